@@ -105,7 +105,7 @@ KeyIs == wjob[Rec.a] # <<>> /\ Job(Rec.a).key = Rec.key
 
 \* guard of the step the event names
 HGuard ==
-  CASE Rec.h = "want"    -> IF Rec.kind = "w" THEN IsW /\ SliceLock /\ wpc[Rec.a] = "wantSlice"
+  CASE Rec.h = "want"    -> IF Rec.kind = "w" THEN IsW /\ wpc[Rec.a] = "wantSlice"
                                               ELSE IsC /\ cpc[Rec.a] = "wantLock"
     [] Rec.h = "lock"    -> IF Rec.kind = "w" THEN IsW /\ WLockG(Rec.a, Rec.key) ELSE IsC /\ LockG(Rec.a, Rec.key)
     [] Rec.h = "unlock"  -> IF Rec.kind = "w" THEN IsW /\ WUnlockG(Rec.a, Rec.key)
